@@ -261,12 +261,27 @@ theorem einv_applyOp {k : K} (ht : TInv k) (hr : RInv k) (he : EInv k) (op : KOp
         have hr' : RInv { k with latches := k.latches.set l (q, true) } := rinv_congr hr rfl
         obtain ⟨a, b⟩ := rejectP_as_settle { k with latches := k.latches.set l (q, true) } q v
         exact einv_settle he' hr' q _ false hq hlt a b
-  | addReactions p cap f g => exact einv_addReactions he p cap f g
+  | addReactions p cap f g =>
+    simp only [applyOp]
+    split
+    · exact einv_addReactions he p cap f g
+    · exact he
   | popJob =>
     simp only [applyOp, popJob]
     split
     · exact he
-    · split <;> exact einv_congr he rfl rfl
+    · exact einv_congr he (popJobQ_enqEver k) (popJobQ_proms k)
+  | asyncStart => exact einv_congr he rfl rfl
+  | await ar p =>
+    simp only [applyOp, awaitOp]
+    split
+    · exact einv_congr (einv_addReactions he p none _ _) rfl rfl
+    · exact he
+  | asyncDone ar =>
+    simp only [applyOp, asyncDone]
+    split
+    · exact einv_congr he rfl rfl
+    · exact he
   | leaveAbrupt => exact einv_congr he rfl rfl
 
 theorem einv_reach {k : K} (h : Reach k) : EInv k := by
